@@ -15,8 +15,9 @@ import UgoVerif.Proofs.EvalLocals
     * `first_fragment_eq_batch`
   Stated, NOT proved (`C10_full`): session ≈ batch for every fragment sequence.  It needs
   compile-append and VM-relocation lemmas over the (still `partial`) compiler model; it is
-  moreover false of the code for two input classes (open findings C10:variadic-param and
-  C10:codeless-fragment, reproduced by the stream's oracle on every run).
+  moreover false of the code for three input classes (open findings C10:variadic-param,
+  C10:codeless-fragment and — with the optimizer on — C10:optimizer-error-timing, reproduced by
+  the stream's oracle on every run).
 -/
 namespace UgoVerif.Props.C10
 open UgoVerif UgoVerif.Go UgoVerif.Ast UgoVerif.Compile UgoVerif.VM UgoVerif.Eval
@@ -263,7 +264,7 @@ def returnsOnlyAtEnd (insts : Bytes) : Bool :=
 def ProvisoHolds (F : FloatOps) (fuel : Nat) (s0 : Session) (frags : List (List Stmt)) : Prop :=
   ∀ o ∈ (evalSession F fuel s0 frags).dropLast, ∀ bc, o.bytecode = some bc → returnsOnlyAtEnd bc.main.insts.toList = true
 
-/-- **C10_full** (NOT proved; false of the code for the two open findings): for every session
+/-- **C10_full** (NOT proved; false of the code for the open findings): for every session
     start, every sequence of fragments meeting the proviso and every `k`, the `k`-th `Eval.Run`
     of the session and ONE `Eval.Run` of the concatenation of the first `k+1` fragments on an
     equal fresh session show the same result or error, locals and globals (as address-free
